@@ -80,6 +80,32 @@ def one(args):
     finally:
         shutil.rmtree(d, ignore_errors=True)
 
+def one_raw(args):
+    """raw value vector: string-valued flags absent / empty / given, dates absent / 0 / negative / positive"""
+    idx, v, port = args
+    d = tempfile.mkdtemp(prefix='c18r_')
+    try:
+        open(os.path.join(d, 'in.log'), 'wb').write(LINE)
+        argv = [CLI, 'redact']
+        def sflag(name, c, val):
+            if c == 'e': argv.append('%s=' % name)
+            elif c == 'g': argv.append('%s=%s' % (name, val))
+        if v[0] == 'e': argv.append('')
+        elif v[0] == 'g': argv.append('in.log')
+        sflag('--outputFile', v[2], 'out.log')
+        if v[3] == '1': argv += ['--encrypt', '-q', 'key.file']
+        sflag('--redactFieldsRegexp', v[4], '^a$'); sflag('--redactFieldNames', v[5], 'd.c')
+        sflag('--atlasProjectId', v[6], 'P1'); sflag('--atlasClusterName', v[7], 'C1'); sflag('--atlasPublicKey', v[8], 'pubk'); sflag('--atlasPrivateKey', v[9], 'privk')
+        for name, c in (('--atlasLogStartDate', v[10]), ('--atlasLogEndDate', v[11])):
+            if c != 'a': argv.append('%s=%s' % (name, {'z': '0', 'n': '-86400', 'p': '1700000000'}[c]))
+        env = {'PATH': '/usr/bin:/bin', 'HOME': d, 'TMPDIR': d, 'HTTPS_PROXY': 'http://run%d:x@127.0.0.1:%d' % (idx, port), 'NO_PROXY': ''}
+        if v[12] == '1': env.update(ATLAS_PUBLIC_KEY='epub', ATLAS_PRIVATE_KEY='epriv')
+        p = subprocess.run(argv, cwd=d, env=env, input=(LINE if v[1] == '1' else None), stdin=(None if v[1] == '1' else subprocess.DEVNULL), capture_output=True, timeout=60)
+        files = sorted(x for x in os.listdir(d) if x != 'in.log')
+        return idx, p.returncode, p.stdout[-300:], p.stderr[-300:], files, argv[1:]
+    finally:
+        shutil.rmtree(d, ignore_errors=True)
+
 def run(chk, replay=None):
     lst = Listener()
     combos = list(itertools.product([False, True], repeat=13))
@@ -105,7 +131,43 @@ def run(chk, replay=None):
         if f['start'] != f['end'] and rule(dict(f, start=True, end=True)) is not None: lone.append((i, bits))
     with ThreadPoolExecutor(max_workers=16) as ex:
         results_n = list(ex.map(one, [(300000 + i, bits, lst.port, 'negdates') for i, bits in lone]))
+    # the VALUES behind the switches (empty strings, zero / negative dates, an empty file argument): a seeded sample of value vectors through the
+    # CLI against the model's reading of them (Cli.abstract: non-empty string, non-zero date, len(args) == 1, --redactFieldNames given at all)
+    import random as _random
+    vr = _random.Random(chk.seed)
+    vecs = set()
+    while len(vecs) < 1200:
+        v = ''.join([vr.choice('aeg'), vr.choice('01'), vr.choice('aeg'), vr.choice('001'), vr.choice('aaeg'), vr.choice('aaeg')] + [vr.choice('aaeg') for _ in range(4)] + [vr.choice('aaznp'), vr.choice('aaznp'), vr.choice('01')])
+        vecs.add(v)
+    vecs = sorted(vecs)
+    model_raw = run_driver(['CLIRAW ' + v for v in vecs])
+    with ThreadPoolExecutor(max_workers=16) as ex:
+        results_v = list(ex.map(one_raw, [(400000 + i, v, lst.port) for i, v in enumerate(vecs)]))
     import time; time.sleep(0.5); lst.stop = True
+    for (idx, rc, so, se, files, argv), v, m in zip(results_v, vecs, model_raw):
+        chk.count(); chk.traces += 1; chk.nontriv(('raw', v))
+        net = lst.hits.get('run%d' % idx, 0)
+        mv, me = m.split()
+        validation_error = rc == 1 and se.startswith(b'Error:')
+        runtime_error = rc == 1 and not validation_error
+        effects = set()
+        if 'out.log' in files or any(x.startswith('out.log.') for x in files): effects.add('out')
+        if 'key.file' in files: effects.add('key')
+        if net: effects.add('net')
+        got = 'reject' if validation_error else 'accept'
+        case = {'argv': argv, 'stdin': 'pipe' if v[1] == '1' else 'none', 'key_pair_in_environment': v[12] == '1', 'rc': rc, 'stderr': se.decode('utf-8', 'replace'), 'files': files, 'network_attempts': net}
+        if rc not in (0, 1): chk.violate('unexpected exit status (crash?)', case, tags=['status', 'values'])
+        # an accepted job may still fail at run time (the empty file name cannot be opened, the listener is no Atlas): then its effects are a prefix of the model's
+        mset = set(me.split(',')) - {'read', '-'}
+        if got != mv.split(':')[0] or (got == 'reject' and effects) or (got == 'accept' and not runtime_error and effects != mset) or (got == 'accept' and not effects <= mset):
+            chk.disagree('verdict and side effects for a value vector', case, (got, sorted(effects)), m)
+        if validation_error and effects:
+            chk.violate('rejection decided from the flags had side effects: %s' % sorted(effects), case, tags=['sideeffect', 'values'] + sorted(effects))
+        if v[0] != 'a' and (v[1] == '1') and not validation_error:
+            chk.violate('a file argument together with piped input was accepted', case, tags=['accepted', 'values'])
+        if (v[10] in 'np') != (v[11] in 'np') and not validation_error:
+            chk.violate('a start / end date given alone was accepted', case, tags=['accepted', 'values'])
+    chk.streams.append({'stream': 'sampled value vectors (absent / empty / given strings, absent / 0 / negative / positive dates) through the CLI vs Cli.decide_raw', 'cases': len(vecs)})
     for (idx, rc, so, se, files), (i, bits) in zip(results_n, lone):
         f = dict(zip(NAMES, bits))
         chk.count(); chk.nontriv((bits, 'negdates'))
